@@ -21,10 +21,12 @@ LEVEL_TEXT = ("Fault enumeration on the real code: every (function, invocation) 
               "timeout; ErrorSnapshot.reproduce() (also after save/load) must raise the same exception for in-process "
               "execution, also after a second, later failure elsewhere; earlier results stay loadable. Hang-freedom is "
               "a liveness property: only observed through the timeout (N/A for this family otherwise).")
+LEVEL_TEXT += (' Also proved: ErrorSnapshot.reproduce (the stored function is invoked exactly once with exactly the stored positional and keyword arguments, and what it does is what reproduce does; the stored callable is an assumed deterministic contract with a ghost call counter).')
 LEVEL_NOTE = ("Bounds: DAGs of 1..4 functions; map programs of 1..3 functions with <=8 calls. Trusted: tagging bodies, "
               "reference denotation for 'generation' and expected kwargs.")
 TECHNIQUE = ("bounded fault enumeration of the failure-propagation contract; deductive part: Pipeline.error_snapshot "
              "(the most recent snapshot among the functions) discharged by z3 over an uninterpreted total order of strings")
+TECHNIQUE += ('; ErrorSnapshot.reproduce discharged by z3')
 EXPLANATION = LEVEL_TEXT
 RULE = ("case x failing invocation x exception type x execution mode; distinct = distinct tuples; non-trivial = the "
         "failing invocation is not the first call or the program has >=2 functions")
@@ -43,7 +45,10 @@ def proof_items():
     from contracts import errors
     from vf.driver import ProofItem
     # which snapshot the pipeline exposes after several failures: the most recent one among its functions
-    return [ProofItem(errors.error_snapshot, gen=errors.gen)]
+    return [ProofItem(errors.error_snapshot, gen=errors.gen),
+            # reproduce(): the stored function, once, with exactly the stored arguments
+            ProofItem(errors.reproduce, gen=errors.repro_gen,
+                      registry=lambda: {**{c.short: c for c in errors.REPRODUCE}, **{c.name: c for c in errors.REPRODUCE}})]
 
 
 def _same_exception(e, kind):
